@@ -211,6 +211,79 @@ def run (cfg : Cfg) (s : State) : List Op → State
   | [] => s
   | op :: ops => run cfg (step cfg s op).st ops
 
+/-! ## Several lifecycles alive at once
+
+The lifecycles of one process share nothing but the clock (`datetime.now()`).  A world is an association list
+slot → (configuration, state), newest binding first, plus the clock; operations are addressed to a slot.  The
+per-instance theorems are transferred to every instance of every world history in `Props/C09.lean`
+(`c09_instances_independent`, `c09_every_instance_is_a_lifecycle`). -/
+
+structure Inst where
+  cfg : Cfg
+  st : State
+  deriving DecidableEq, Repr
+
+structure World where
+  now : Nat
+  insts : List (Nat × Inst)
+  deriving Repr
+
+inductive WOp where
+  /-- `Telomere(...)` constructed now, kept in slot `k` (whatever was there is forgotten) -/
+  | new (k : Nat) (cfg : Cfg)
+  /-- a method call on the lifecycle in slot `k` -/
+  | on (k : Nat) (op : Op)
+  /-- the shared clock advances -/
+  | adv (us : Nat)
+  deriving DecidableEq, Repr
+
+/-- a lifecycle constructed when the clock shows `t` -/
+def initAt (cfg : Cfg) (t : Nat) : State :=
+  { phase := .nascent, length := cfg.maxOps, errors := 0, ops := 0, renewals := 0, reason := none,
+    started := none, lastAct := none, now := t }
+
+def World.empty : World := ⟨0, []⟩
+
+def World.get (w : World) (k : Nat) : Option Inst := w.insts.lookup k
+
+/-- every lifecycle sees the clock advance -/
+def advAll (us : Nat) : List (Nat × Inst) → List (Nat × Inst)
+  | [] => []
+  | (k, i) :: rest => (k, ⟨i.cfg, (step i.cfg i.st (.adv us)).st⟩) :: advAll us rest
+
+def advW (w : World) (us : Nat) : World := ⟨w.now + us, advAll us w.insts⟩
+
+/-- the clock is not a method of a lifecycle: `on k (adv us)` is the shared clock advancing -/
+def Op.isAdv : Op → Option Nat
+  | .adv us => some us
+  | _ => none
+
+/-- one world operation; the `Out` of the call when a method of an existing lifecycle was called -/
+def stepW (w : World) : WOp → World × Option Out
+  | .new k cfg => (⟨w.now, (k, ⟨cfg, initAt cfg w.now⟩) :: w.insts⟩, none)
+  | .adv us => (advW w us, none)
+  | .on k op =>
+    match op.isAdv with
+    | some us => (advW w us, none)
+    | none =>
+      match w.insts.lookup k with
+      | none => (w, none)
+      | some i => (⟨w.now, (k, ⟨i.cfg, (step i.cfg i.st op).st⟩) :: w.insts⟩, some (step i.cfg i.st op))
+
+def runW (w : World) : List WOp → World
+  | [] => w
+  | x :: xs => runW (stepW w x).1 xs
+
+/-- what the lifecycle in slot `k` sees of a world history: its own calls and every clock advance -/
+def proj (k : Nat) : List WOp → List Op
+  | [] => []
+  | .new _ _ :: xs => proj k xs
+  | .adv us :: xs => .adv us :: proj k xs
+  | .on k' op :: xs =>
+    match op.isAdv with
+    | some us => .adv us :: proj k xs
+    | none => if k' = k then op :: proj k xs else proj k xs
+
 /-! ### support for the source translation (`Operon/Gen/TelomereTranslated.lean`, generated) -/
 
 /-- Python `x or d` on an optional int: `None` and `0` are falsy -/
